@@ -912,4 +912,22 @@ def error_sources(body, err_nid):
         e = tr.operand(ops[0]) if ops else None
     if e is None:
         return []
-    return [(c.nid, c.extra) for c in e.calls() if not path_matches(c.extra, "Try::branch")]
+    # peel payload projections and the `?` plumbing down to the call that produced the error value
+    out = []
+    x = e
+    for _ in range(16):
+        if x.k in ("field", "downcast", "cast") and x.a:
+            x = x.a[0]
+            continue
+        if x.k == "call" and x.a and (path_matches(x.extra, "Try::branch") or path_matches(x.extra, "From::from")
+                                      or path_matches(x.extra, "Into::into")):
+            x = x.a[0]
+            continue
+        if x.k == "call" and x.a and any(path_matches(x.extra, w) for w in ("Result::map_err", "Option::ok_or", "Option::ok_or_else", "Result::map")):
+            out.append((x.nid, x.extra))
+            x = x.a[0]
+            continue
+        break
+    if x.k == "call":
+        out.append((x.nid, x.extra))
+    return out
